@@ -88,10 +88,33 @@ def san_reports(err):
     return reps
 
 
-def run_harness(exe, scns, watchdog=20, per_scn_stderr=False):
+def run_harness(exe, scns, watchdog=20, per_scn_stderr=False, confirm_hangs=True):
     """scns: list of (id, lines).  -> dict id -> Scn (parsed), dict id -> notes, all sanitizer reports.
     With per_scn_stderr the harness is run one scenario per process chunk of size 1 for exact
-    attribution of sanitizer reports (slower)."""
+    attribution of sanitizer reports (slower).
+    A scenario whose call did not return within the watchdog is run once more ALONE with a much
+    longer watchdog before it counts as a hang: on a loaded machine (other checks, sanitizer
+    slow-down) a slow call must not be taken for a hang."""
+    parsed, notes, sans = _run_harness_once(exe, scns, watchdog, per_scn_stderr)
+    if confirm_hangs:
+        hung = [s for s in scns if (s[0] in parsed and parsed[s[0]].hang) or (s[0] in notes and notes[s[0]][0] in (3, -9))]
+        for s in hung[:3]:
+            p2, n2, s2 = _run_harness_once(exe, [s], watchdog * 4 + 20, True)
+            ok = s[0] in p2 and not p2[s[0]].hang and not (s[0] in n2 and n2[s[0]][0] in (3, -9))
+            if not ok:
+                break       # a confirmed hang: the remaining reports stand as they are
+            if ok:
+                parsed[s[0]] = p2[s[0]]
+                notes.pop(s[0], None)
+                if s[0] in n2:
+                    notes[s[0]] = n2[s[0]]
+                sans = [r for r in sans if r.get("scn") != s[0]] + s2
+    # the watchdog of the harness itself prints from a signal handler: not a report about the library
+    sans = [r for r in sans if "signal-unsafe call inside of a signal" not in r.get("kind", "") and "signal-unsafe" not in r.get("text", "")[:200]]
+    return parsed, notes, sans
+
+
+def _run_harness_once(exe, scns, watchdog=20, per_scn_stderr=False):
     blocks = [(s[0], scn_text(s)) for s in scns]
     n = len(blocks)
     if n == 0:
